@@ -485,7 +485,8 @@ def run_entry(entry: str, data: bytes, opts: Dict[str, Any]) -> None:
     if entry == "extract_text":
         extract_text(io.BytesIO(data), password=pw)
     elif entry == "extract_pages":
-        for _ in extract_pages(io.BytesIO(data), password=pw):
+        # the only entry run with caching=False: every getobj re-parses, so no object is ever seen twice by identity
+        for _ in extract_pages(io.BytesIO(data), password=pw, caching=False):
             pass
     elif entry == "xml":
         out = io.BytesIO()
